@@ -338,4 +338,11 @@ def rootConst : Ex → Bool
   | .index e _ => rootConst e
   | _ => false
 
+/-- every index on the path is compile-time computable -/
+def allCtc : Ex → Bool
+  | .ident _ _ => true
+  | .dot e _ => allCtc e
+  | .index e c => c && allCtc e
+  | _ => false
+
 end UtapModel.Const
